@@ -14,6 +14,27 @@ CHECKS = {
         "design_ref": "DESIGN.md §3 C02",
         "note": "Trusted: syn parses the same files rustc builds; the DP aggregation itself (C01/C03/C04) and column-level lineage inside the produced relation are not decided here.",
     },
+    "C13": {
+        "technique": "arm/term tables over the syn AST: selector/eliminator predicate atoms, origin-tracking mini-evaluator for the cartesian enumeration and child order, arg-max comparator shape",
+        "level": "Decides the clauses of C13 that are in the shape of the code: the derivation applied is well-typed (G1 positional agreement, G4 child order), all consistent choices are enumerated (G2 cartesian product, no truncation), "
+                 "and the best-scoring accepted candidate is returned or unreachable_property reported (G3). Completeness over all trees is not decided.",
+        "design_ref": "DESIGN.md §3 C13",
+        "note": "Trusted: visitor.rs hands each node the results of its inputs; syn parses what rustc builds. Completeness/optimality over arbitrary trees out of reach of static rules.",
+    },
+    "C16": {
+        "technique": "reachability over an instantiation-aware (monomorphic) call graph built by a rustc_private MIR driver; who-may-reach rules for hash-order iteration, the global name counter, statics and ambient nondeterminism",
+        "level": "Decides that no source of non-determinism (hash-order iteration with an order-sensitive consumer D1, the process-global name counter D2, other process state D3, RNG/clock/env/thread ids D4) is reachable from "
+                 "the parse, render and type entry points, for every instantiation the crate's own code makes. This is a necessary condition of deterministic compilation; semantic equality of re-parsed SQL is not decided.",
+        "design_ref": "DESIGN.md §3 C16",
+        "note": "Trusted: rustc's Instance resolution; calls through fn pointers resolved at the reification site; drop glue not followed. One edge suppression with a checked caller invariant (qv/reach.py).",
+    },
+    "C18": {
+        "technique": "reachability over the monomorphic call graph (rustc MIR driver) + MIR switch/assert facts: inventory of explicit aborts keyed by the enum variants that select them, unchecked i64 arithmetic with a reviewed safe table, dispatch-table holes",
+        "level": "Inventory: every todo!/unimplemented!/panic!/unreachable! (P1), every overflow-checked i64 operation outside a reviewed safe table (P2) and every hole of the two implementation dispatch tables (E1) that is reachable from the "
+                 "public entry points is reported; the sites on the pinned tree are input-confirmed known findings, any new one is a violation. unwrap/expect, indexing, assert! preconditions and termination are not decided.",
+        "design_ref": "DESIGN.md §3 C18",
+        "note": "Trusted: as C16. The 175 P1 findings are one class (unsupported construct -> abort instead of Err); a sample was confirmed by input with a probe binary (DESIGN §6).",
+    },
 }
 
 _PENDING = "check under construction in this session (see DESIGN.md §7 build order); not claimed until its rules are exact on the pinned tree"
